@@ -23,11 +23,11 @@ def leName (a b : DEntry) : Bool := decide (a.1 ≤ b.1)
 /-- the order in which `Dotenv` adds the entries: by key -/
 def dotenvOrder (es : List DEntry) : List DEntry := sortBy leName es
 
-def noShell : World := ⟨fun _ _ _ => [], []⟩
+def noShell : World := ⟨fun _ _ _ => [], [], false⟩
 
 /-- templating a list of entries in the order given -/
 def dotenvEval (base : Env) (es : List DEntry) : Env :=
-  (evalBlock noShell [] (es.map (fun e => (e.1, VarDef.lit e.2))) base []).1
+  (evalBlock noShell (fun _ => []) (es.map (fun e => (e.1, VarDef.lit e.2))) base []).1
 
 /-- the values of the entries of one dotenv file handed out in the order `es` -/
 def dotenvChain (base : Env) (es : List DEntry) : Env := dotenvEval base (dotenvOrder es)
